@@ -18,6 +18,6 @@ CONSTANTS
   HostileSteps = 1
   AllScopes = FALSE
 INVARIANTS FTypeOK
-PROPERTIES Confined EqualsRestriction ListingExact ScopesRewritten
+PROPERTIES Confined EqualsRestriction ListingExact ScopesRewritten SubFailedListingIsPrefix
 VIEW FView
 CHECK_DEADLOCK FALSE
